@@ -352,6 +352,18 @@ def r09_7(chk, facts):
         if n >= 8: break     # two instantiations are enough (json, ojson)
     chk.require(n >= 4, 'R09.7: only %d storage-kind cases found in the copy routines' % n)
 
+def value_semantics(chk, tier):
+    """The basic_json value operations that the patch algorithms are written in terms of: kind-safe storage access in every member function
+    (R09.1/R09.2), the comparison matrix (R09.5), the copy siblings (R09.7) and whole-character copies/compares (R05.12)."""
+    facts = F.load(['core'], tier)
+    if 'core' not in chk.units: chk.units.append('core')
+    model = K.KindModel(facts, chk)
+    r09_1_2(chk, facts, model)
+    r09_5(chk, facts, model)
+    r09_7(chk, facts)
+    from . import c05
+    c05.r05_12(chk, tier, units=('core', 'patch'))
+
 def run(chk, tier, only_rule=None):
     chk.explanation = EXPLANATION
     chk.not_decided = NOT_DECIDED
@@ -363,3 +375,5 @@ def run(chk, tier, only_rule=None):
     r09_6(chk, facts)
     r09_5(chk, facts, model)
     r09_7(chk, facts)
+    from . import c05
+    c05.r05_12(chk, tier, units=('core', 'patch'))     # object keys of wide-character documents are compared whole
